@@ -531,3 +531,103 @@ def run(ck, prog):
     _run_pre_progress(ck, prog)
     from sa import progress
     progress.run_rule(ck, prog, set(DIMENSION_FILES))
+
+
+# ------------------------------------------------------------------ the sweep keeps `previous value` in step with its counters; which_max is a running arg-max
+_run_pre_prevx = run
+
+
+def prevx_in_step(ck, prog):
+    """The sweep of find_best_split places a threshold between the previous and the current feature value. Every branch
+    that advances the running counters past a row (also the branches that skip the row as a candidate) must record that
+    row's value as the new `previous value`; otherwise the next threshold is computed from an older value and the rows
+    in between are counted on one side and routed to the other. Sibling agreement inside one function: every update site of
+    the row counter lies on a straight-line path with an assignment of the previous-value local."""
+    from sa.prov import Resolver, render
+    from sa.isolation import natural_loops
+    rule = "E1-sibling"
+    for nm, P in TREES.items():
+        inst = f"{nm}: every branch of the sweep that counts a row also records its value as the previous value"
+        b = _one(ck, prog, rule, inst, P + "find_best_split")
+        if not b:
+            continue
+        cx = BodyCtx.of(b)
+        res = cx.res
+        # the previous-value local: a float local compared for equality with a data element and assigned data elements in the loop
+        prev = None
+        is_elem = lambda t: t[0] == "call" and t[1].endswith("BaseMatrix::get")
+        for c in cx.cmps:
+            for (L, R) in ((c.lhs, c.rhs), (c.rhs, c.lhs)):
+                if c.rel in ("==", "!=") and is_elem(L) and R[0] == "phi" and any(is_elem(a) for a in R[2]):
+                    prev = R[1]
+        if prev is None:
+            ck.note(f"{inst}: no `x == previous value` tie test in find_best_split: no instance")
+            continue
+        loops = natural_loops(b)
+        pdefs = [d.bb for d in b.defs.get(prev, []) if d.kind == "assign" and d.bb != 0]
+        # counter update sites: integer locals updated by `l = l + w` inside a loop, and element stores `c[k] += w`
+        sites = []
+        for l, ds in b.defs.items():
+            if b.is_arg(l) or not b.local_name(l):
+                continue
+            for d in ds:
+                if d.kind == "assign" and d.data["r"]["k"] in ("bin", "use") and b.local_ty(l) in ("usize", "u64", "u32"):
+                    tm = res.from_def(d, 1, ())
+                    if tm[0] == "field" and tm[2] == "0":
+                        tm = tm[1]
+                    if tm[0] == "bin" and tm[1] in ("Add", "AddWithOverflow") and tm[2][0] in ("phi", "local") and tm[2][1] == l \
+                            and any(d.bb in nodes for nodes in loops.values()):
+                        sites.append((l, d.bb, b.where(d.bb, d.idx)))
+                elif d.kind == "store" and "usize" in b.local_ty(l):
+                    tm = res.rvalue(d.data["r"], 0, ())
+                    if tm[0] == "field" and tm[2] == "0":
+                        tm = tm[1]
+                    if tm[0] == "bin" and tm[1] in ("Add", "AddWithOverflow") and any(d.bb in nodes for nodes in loops.values()):
+                        sites.append((l, d.bb, b.where(d.bb, d.idx)))
+        if not sites or not pdefs:
+            ck.note(f"{inst}: no counter update sites / previous-value assignments recognised: no instance")
+            continue
+        bad = [(l, w) for (l, bb, w) in sites if not any(b.dominates(p, bb) and _same_region(b, p, bb) or b.dominates(bb, p) and _same_region(b, bb, p)
+                                                           for p in pdefs)]
+        if bad:
+            l, w = bad[0]
+            ck.violation(rule, inst, b.path, w, expected="the previous value is assigned on the same straight-line path as every counter update",
+                         found=f"`{b.local_name(l)}` is advanced at {w} on a branch that does not assign `{b.local_name(prev)}`: the next "
+                               f"threshold is the midpoint with an older value")
+        else:
+            ck.ok(rule, inst, b.path, sites[0][2], f"{len(sites)} counter update sites, each with `{b.local_name(prev)}` assigned on its path")
+
+
+def _same_region(b, a, c):
+    """a dominates c and no two-way branch that is not post-dominated... approximated: c post-dominates a or every path from a reaches c
+    before the loop latch - checked as: a dominates c and c post-dominates a"""
+    return c in b.pdom.get(a, set()) or a == c
+
+
+def which_max_running(ck, prog):
+    """which_max (majority class of a count table) compares each element with the RUNNING maximum: a comparison between two
+    elements of the table at different positions (x[i] > x[i - 1]) finds a local rise, not the maximum."""
+    from sa.prov import Resolver, render, subterms
+    rule, inst = "E2d-sign", "which_max compares each count with the running maximum"
+    b = prog.bodies.get("tree::decision_tree_classifier::which_max")
+    if b is None:
+        ck.note(f"{inst}: which_max not found: no instance")
+        return
+    cx = BodyCtx.of(b)
+    is_el = lambda t: (t[0] == "idx" and any(s[0] == "arg" and s[1] == 1 for s in subterms(t[1]))) or \
+        (t[0] == "field" and any(s[0] == "call" and s[1].endswith("Iterator::next") for s in subterms(t)))
+    bad = [c for c in cx.cmps if is_el(c.lhs) and is_el(c.rhs) and c.lhs != c.rhs and c.lhs[0] == "idx" and c.rhs[0] == "idx"]
+    if bad:
+        ck.violation(rule, inst, b.path, bad[0].where, expected="element ? running maximum (a loop-carried local)",
+                     found=f"`{render(bad[0].lhs)[:40]} {bad[0].rel} {render(bad[0].rhs)[:40]}` compares two table entries with each other")
+    else:
+        ck.ok(rule, inst, b.path, f"{b.loc[0]}:{b.loc[1]}", f"{len(cx.cmps)} comparison(s), none between two table entries")
+
+
+def run(ck, prog):
+    _run_pre_prevx(ck, prog)
+    prevx_in_step(ck, prog)
+    which_max_running(ck, prog)
+
+
+EXPLANATION += (' Sweep consistency: every branch that advances the row counters also assigns the previous-value local (E1-sibling); which_max compares each count with the running maximum, never two table entries with each other.')
